@@ -1,1 +1,1 @@
-
+import Spec.Core
